@@ -12,6 +12,9 @@ settings seen through the handle are compared with the creation settings (known 
 GOLDEN DIRECTORY: fixtures/golden-5.6.3 (written once by the pinned release) is copied to a scratch directory
 and read with the current code: every recorded item (all key and value representations, expire time, tag),
 the settings, the queue keys, the shard of every FanoutCache key, the Deque and the Index; then a write.
+SUSPENDED ITERATORS: a handle whose key iterator is partially consumed (iter / reversed / iterkeys / Index views; Cache,
+FanoutCache, Index, Deque) must still see at once what another handle, thread, process or forked child commits, and its
+own writes must succeed (suspended_iterators).
 CORRESPONDENCE: the settings-merge model (model/Open.v over gen/Gen_Format.v) against Cache / FanoutCache
 opened with random stored and given settings: settings seen and Settings table afterwards (fw.coq_mismatches).
 """
@@ -47,6 +50,8 @@ ASSUMPTIONS = [
     'clock and ttl values on the 2^-10 grid; a lookup never happens exactly at an expiry time',
     'Deque/Index are always opened with eviction_policy none (persistent.py passes it on every open)',
     'POSIX',
+    'suspended iterators: writers run one after another (no lock is held when the handle with the suspended iterator reads or writes), so a '
+    'Timeout or a missing item there cannot be excused by contention; a write that makes no progress for 3 s is reported as blocked',
 ]
 
 IMPORTS = ['DCPrelude', 'FormatBase', 'Gen_Format', 'Open']
@@ -836,11 +841,11 @@ def it_make(kind, h, how):
     return iter(getattr(h, how)())        # Index views: keys / values / items
 
 
-def it_write(kind, h, items):
+def it_write(kind, h, items, retry=True):
     """items: [(key, value)]; Deque appends the values"""
     for k, v in items:
         if kind in ('cache', 'fanout'):
-            if h.set(k, v, retry=True) is not True:
+            if h.set(k, v, retry=retry) is not True:
                 raise RuntimeError('set(%r) returned a false value' % (k,))
         elif kind == 'index':
             h[k] = v
@@ -1016,7 +1021,7 @@ def suspended_iterator_case(scratch, case, worker):
             seq += [v for _, v in items]
             total += len(items)
             try:
-                bad = it_guard(20, lambda: it_visible(kind, a, items, total, seq))
+                bad = it_guard(10, lambda: it_visible(kind, a, items, total, seq))
             except Exception as e:  # noqa
                 bad = ['looking up raised %r' % e]
             if bad:
@@ -1026,7 +1031,7 @@ def suspended_iterator_case(scratch, case, worker):
         # the handle's own write
         own = it_items('own', 99)
         try:
-            it_guard(10, lambda: it_write(kind, a, own))
+            it_guard(3, lambda: it_write(kind, a, own, retry=False))      # nobody else holds a lock: no retry needed
             seq += [v for _, v in own]
             total += len(own)
             try:
@@ -1106,7 +1111,12 @@ def run(ctx, big=False, model=True):
                 '{close, reopen, pickle, copy, thread, fork, process}, ~12% clock ticks; after every event all keys are read and the settings compared.  '
                 'Golden directory: every recorded item, routing of every FanoutCache key, settings, queue keys, Deque, Index, then writes and check().  '
                 'Settings merge: 1-3 successive opens with random arguments compared with the model.  non-trivial history = contains a handle event; '
-                'distinct = distinct (kind, disk, settings, steps) / golden item / (stored, given) pair.')
+                'distinct = distinct (kind, disk, settings, steps) / golden item / (stored, given) pair.  '
+                'Suspended iterators: on Cache (iter, reversed, iterkeys both directions), FanoutCache (iter, reversed), Index (iter, reversed, keys, '
+                'values, items) and Deque (iter, reversed) a key iterator of handle A is left suspended after 1 / n-1 / 101 of 130 keys (second page); then '
+                'another handle, another thread (own handle and A itself), a separate process and a forked child each commit inline, pickled and '
+                'file-backed items, in rotating order; after each commit A must show them at once (get, in, [], len, a second complete iteration), '
+                "A's own write must succeed and be seen by the other handle, and the iterator must resume.")
     golden(ctx, res)
     histories(ctx, res, 200 if thorough else 45, 70 if thorough else 40)
     merge_cases(ctx, res, 120 if thorough else 30, model=model and not ctx.search_mode)
